@@ -61,7 +61,7 @@ def _worker(job):
         results, info = c.verify(idx, props=[pid])
         out['info'] = {k: v for k, v in info.items() if k != 'cover'}
         out['info']['cover'] = [[n, bool(b)] for n, b in info.get('cover', [])]
-        quals = [c.qual] + [q for q in getattr(c, 'inline', ()) if q in idx.functions] + list(getattr(c, 'extra_functions', ()))
+        quals = [getattr(c, 'qual_resolved', None) or c.qual] + [q for q in getattr(c, 'inline', ()) if q in idx.functions] + list(getattr(c, 'extra_functions', ()))
         for q in quals:
             try:
                 si = idx.source_info(q)
@@ -140,7 +140,9 @@ def main(argv=None):
     if not jobs:
         print('checker error: no contract serves %s' % pid)
         return 3
-    with mp.Pool(min(args.jobs, len(jobs))) as pool:
+    # one fresh process per contract: fresh z3 context and fresh-name counter, so verdicts do not depend on which other
+    # contracts happened to run in the same worker before
+    with mp.Pool(min(args.jobs, len(jobs)), maxtasksperchild=1) as pool:
         outs = pool.map(_worker, jobs, chunksize=1)
     extra = {}
     extra_viol, extra_err = [], []
